@@ -1,4 +1,4 @@
-From Tetl Require Import Lib.Base C11.Model C11.Spec.
+From Tetl Require Import Lib.Base C11.Model C11.Spec C11.ModelCal C11.SpecCal.
 Require Extraction.
 Require Import ExtrOcamlBasic.
 Extraction Language OCaml.
@@ -7,4 +7,17 @@ Extraction "C11_model.ml" wire_anchor
   month_plus_m month_minus_m year_plus_m year_month_plus_months_m weekday_plus_m weekday_minus_days_m
   weekday_diff_m weekday_incdec_m weekday_ctor_m year_ok_m month_ok_m day_ok_m weekday_ok_m
   leap dim date_exists next_day walk weekday_of month_plus_spec month_minus_spec year_month_plus_spec
-  weekday_plus_spec weekday_diff_spec.
+  weekday_plus_spec weekday_diff_spec
+  (* part 2: the calendar types *)
+  year_ctor_m month_ctor_m day_ctor_m cmp6_m eq2_m eq3_m eq4_m
+  year_inc_m year_dec_m year_add_assign_m year_sub_assign_m year_neg_m year_plus_r year_minus_years_m year_diff_m
+  month_plus_r month_minus_months_m month_incdec_m
+  day_plus_m day_minus_days_m day_diff_m day_add_assign_m day_sub_assign_m day_incdec_m
+  weekday_iso_m wdi_ctor_m wdi_ok_m wdl_ok_m md_ok_m mdl_ok_m mwd_ok_m mwdl_ok_m
+  ym_ok_m ym_plus_months_r ym_minus_months_m ym_plus_years_m ym_minus_years_m last_day_r
+  ymd_from_days_m ymd_to_days_m ymd_plus_months_m ymd_minus_months_m ymd_plus_years_m ymd_minus_years_m
+  ym_slash_int_m ymdl_ok_m ymdl_day_m ymdl_to_ymd_m ymdl_to_days_m ymdl_plus_months_m ymdl_minus_months_m
+  ymdl_plus_years_m ymdl_minus_years_m ymwd_ok_m ymwd_from_days_m ymwd_to_days_m ymwd_plus_months_m
+  ymwd_minus_months_m ymwd_plus_years_m ymwd_minus_years_m ymwdl_ok_m ymwdl_to_days_m
+  days_spec year_ok_spec month_ok_spec day_ok_spec weekday_ok_spec cmp6_spec month_minus_months_spec
+  md_exists wdi_ok_spec ymd_plus_months_spec ymd_plus_years_spec ymwd_exists ymwd_days_spec ymwdl_days_spec.
